@@ -262,6 +262,30 @@ def search(ctx):
         if abs(sa - g) > 10 * L: f.append(f'D-shaped contour translated to ({v.x:.0f},{v.y:.0f}): signed_area {sa!r} vs exact enclosed area {g!r} (10*length = {10 * L:.5g})')
         elif not sa > 0: f.append(f'counter-clockwise D-shaped contour at ({v.x:.0f},{v.y:.0f}) has signed_area {sa!r}')
         if f: fails.append({'class': 'C10-path', 'what': f[0], 'input': {'path': path_json(far), 'simple_ccw': True, 'seed2': 1}, 'observed': f, 'expected': 'C10 closed-path clauses'})
+    # the same with quadratics (a lens of two quadratic arcs / a TrueType-style blob), and contours made of few LONG curves whose ends are
+    # close together or coincide: a one-cubic teardrop, a cubic returning next to its start closed by a short line
+    for k in range(ctx.n(30, 300)):
+        v = P(rng.choice([-1, 1]) * rng.uniform(2e4, 3e5), rng.choice([-1, 1]) * rng.uniform(2e4, 3e5)) if k % 2 == 0 else P(float(rng.randint(-300, 300)), float(rng.randint(-300, 300)))
+        kind = rng.choice(['quad-lens', 'quad-blob', 'teardrop', 'returning-cubic'])
+        w, h = rng.uniform(60, 400), rng.uniform(60, 300)
+        if kind == 'quad-lens':      # NOT point-symmetric: errors at the two ends of the arcs must not cancel
+            b = P(w, rng.uniform(-0.2, 0.2) * h)
+            segs = [QuadraticBezier(P(0, 0), P(w * rng.uniform(0.2, 0.8), -h * rng.uniform(0.3, 1)), b), QuadraticBezier(b, P(w * rng.uniform(0.2, 0.8), h * rng.uniform(0.3, 1)), P(0, 0))]
+        elif kind == 'quad-blob':
+            e, n_, w_, s_ = w, h, w * rng.uniform(0.3, 1.5), h * rng.uniform(0.3, 1.5)
+            segs = [QuadraticBezier(P(e, 0), P(e, n_), P(0, n_)), QuadraticBezier(P(0, n_), P(-w_, n_), P(-w_, 0)), QuadraticBezier(P(-w_, 0), P(-w_, -s_), P(0, -s_)), QuadraticBezier(P(0, -s_), P(e, -s_), P(e, 0))]
+        elif kind == 'teardrop': segs = [CubicBezier(P(0, 0), P(w, h * rng.uniform(0.2, 1)), P(-w, h), P(0, 0))]
+        else:
+            gap = rng.uniform(0.5, 7.5)
+            segs = [CubicBezier(P(0, 0), P(w, h * rng.uniform(0.2, 1)), P(-w, h), P(-gap, 0)), Line(P(-gap, 0), P(0, 0))]
+        far = BezierPath.fromSegments(segs).translate(v)
+        far.closed = True
+        ev += 1; dist['path/' + kind + ('-far' if k % 2 == 0 else '')] = dist.get('path/' + kind + ('-far' if k % 2 == 0 else ''), 0) + 1
+        g = ref.green_area([pts(s) for s in far.asSegments()]); sa = far.signed_area; L = far.length
+        f = []
+        if abs(sa - g) > 10 * L: f.append(f'{kind} contour translated to ({v.x:.0f},{v.y:.0f}): signed_area {sa!r} vs exact enclosed area {g!r} (10*length = {10 * L:.5g})')
+        elif not sa > 0: f.append(f'counter-clockwise {kind} contour at ({v.x:.0f},{v.y:.0f}) has signed_area {sa!r}')
+        if f: fails.append({'class': 'C10-path', 'what': f[0], 'input': {'path': path_json(far), 'simple_ccw': True, 'seed2': 1}, 'observed': f, 'expected': 'C10 closed-path clauses'})
     for _ in range(ctx.n(30, 250)):
         kind = rng.choice(['rect', 'ellipse', 'circle'])
         # flatten() costs O(length^2): the quick tier draws most sizes below 600 and one in eight up to 5000 (thorough: all sizes uniformly)
